@@ -542,4 +542,56 @@ example : SeqSafe .hyphen (renderSegs [.csi "1;31".toList 'm', .ch 'a', .ch ' ',
     .osc "8;;http://x.y".toList .st, .ch 'd', .osc "8;;".toList .st, .csi [] 'm']) :=
   seqSafe_of_segs _ _ (by decide) (by decide)
 
+/-! ### the whole text: every paragraph fits -/
+
+/-- the lines expected when every paragraph fits: paragraph `k` with the indent of line `k` -/
+def fitLines (o : Opts) : List Text → Nat → List Text
+  | [], _ => []
+  | p :: ps, n => (indentOf o n ++ trimEndSp p) :: fitLines o ps (n + 1)
+
+theorem wrapR_fitting (env : Env) (mo : MinimaOracle Int) (o : Opts) (ps : List Text)
+    (h : ∀ p ∈ ps, ∀ n, (wrapSingleLineSlow env mo o p n).map (·.map LineD.render) =
+      some [indentOf o n ++ trimEndSp p]) (off n : Nat) :
+    wrapR (blen o.lineEnding.str) (wrapSingleLineSlow env mo o) ps off n = some (fitLines o ps n) := by
+  induction ps generalizing off n with
+  | nil => rfl
+  | cons p r ih =>
+    rw [wrapR_cons]
+    have hp := h p (by simp) n
+    cases hs : wrapSingleLineSlow env mo o p n with
+    | none => rw [hs] at hp; simp at hp
+    | some ds =>
+      rw [hs] at hp
+      simp only [Option.map_some, Option.some.injEq] at hp
+      have hlen : ds.length = 1 := by simpa using congrArg List.length hp
+      simp only
+      rw [hlen, ih (fun q hq => h q (by simp [hq]))]
+      simp [fitLines, hp]
+
+/-- **every paragraph that fits comes back as one unchanged line — the whole text.** ASCII
+    separator, first-fit, built-in splitters, `break_words` on or off, any indents: if every
+    paragraph is safe and fits next to the indent its line carries (paragraph `k` is line `k`),
+    `wrap` returns exactly these paragraphs, each with its indent and without trailing spaces. -/
+-- @audit TW.C05.wrap_fitting_paragraphs
+theorem wrap_fitting_paragraphs (env : Env) (hsp : env.cw SP = 1) (hcw : ∀ c, env.cw c ≤ c.utf8Size)
+    (mo : MinimaOracle Int) (o : Opts) (hb : Builtin o.splitter) (halg : o.alg = .firstFit)
+    (hsep : o.sep = .ascii) (text : Text)
+    (hsafe : ∀ p ∈ splitEnding o.lineEnding text, SeqSafe o.splitter p)
+    (hfit : ∀ p ∈ splitEnding o.lineEnding text, ∀ n,
+      displayWidth env.cw (indentOf o n) + displayWidth env.cw p ≤ o.width) :
+    wrap env mo o text = some (fitLines o (splitEnding o.lineEnding text) 0) := by
+  rw [wrap_shortcut_unobservable_ascii env hcw mo o hb halg hsep]
+  unfold wrapNoShortcut
+  apply wrapR_fitting
+  intro p hp n
+  cases hpipe : pipeline env o p (o.width - displayWidth env.cw o.subsequentIndent) with
+  | none => exact absurd hpipe (fun h => shortcut_sound_ascii_escfree.pipeline_ascii_total env o hsep hb p _ h)
+  | some frs =>
+    obtain ⟨c1, c2⟩ := pipeline_contig env o (builtin_inRange _ _ hb) p _ frs hpipe
+    have hnp := pipeline_noPen env o hb p _ frs hpipe
+    have hl := pipeline_lastOk_ascii env o hsep (builtin_inRange _ _ hb) p _ frs hpipe
+    rw [fits_one_line_firstfit_safe env hsp mo o hb halg p (hsafe p hp) n frs hpipe (hfit p hp n)]
+    simp only [Option.map_some, Option.some.injEq]
+    exact one_line_render env o p n frs c2 hl hnp c1
+
 end TW.C05
